@@ -168,6 +168,19 @@ type EncObs struct {
 	TL     int    `json:"tl"`
 	Strict bool   `json:"strict"`
 	Err    string `json:"err"`
+	// F classifies Err for the specification: "" none, "error" the call returned an error, "panic"
+	F string `json:"f"`
+}
+
+// failKind classifies the text returned by guard.
+func failKind(msg string) string {
+	switch {
+	case msg == "":
+		return ""
+	case strings.HasPrefix(msg, "panic"):
+		return "panic"
+	}
+	return "error"
 }
 
 // DecObs is one decoded view: path "encoder/decoder", the name of the specification's
@@ -177,6 +190,7 @@ type DecObs struct {
 	Exp string `json:"exp"`
 	Val Rec    `json:"val"`
 	Err string `json:"err"`
+	F   string `json:"f"` // as EncObs.F
 }
 
 // Obs is everything observed for one abstract value.
@@ -257,7 +271,7 @@ func (o *Obs) encBytes(p string, f func() ([]byte, error)) []byte {
 		b, err = f()
 		return err
 	})
-	o.Enc = append(o.Enc, EncObs{P: p, TL: tls.id(rawTokens(b)), Strict: msg == "" && strictParse(b), Err: msg})
+	o.Enc = append(o.Enc, EncObs{P: p, TL: tls.id(rawTokens(b)), Strict: msg == "" && strictParse(b), Err: msg, F: failKind(msg)})
 	o.keep(p, b)
 	if msg != "" {
 		return nil
@@ -273,7 +287,7 @@ func (o *Obs) encTokens(p string, f func() xml.TokenReader) []xml.Token {
 		toks, err = readTokens(f())
 		return err
 	})
-	o.Enc = append(o.Enc, EncObs{P: p, TL: tls.id(absToks(toks)), Strict: msg == "", Err: msg})
+	o.Enc = append(o.Enc, EncObs{P: p, TL: tls.id(absToks(toks)), Strict: msg == "", Err: msg, F: failKind(msg)})
 	if msg != "" {
 		return nil
 	}
@@ -309,7 +323,7 @@ func (o *Obs) dec(p, exp string, f func() (Rec, error)) {
 	if r == nil {
 		r = Rec{}
 	}
-	o.Dec = append(o.Dec, DecObs{P: p, Exp: exp, Val: r, Err: msg})
+	o.Dec = append(o.Dec, DecObs{P: p, Exp: exp, Val: r, Err: msg, F: failKind(msg)})
 }
 
 // tokensToBytes writes tokens through encoding/xml's encoder (what a session does).
@@ -347,7 +361,7 @@ func stdRun(s Std) func(v Rec, o *Obs) {
 		// the value is built afresh for every path (some values hold one-shot readers)
 		var val interface{}
 		if msg := guard(func() error { val = s.Build(v); return nil }); msg != "" {
-			o.Enc = append(o.Enc, EncObs{P: "build", TL: tls.id([]Tok{}), Err: msg})
+			o.Enc = append(o.Enc, EncObs{P: "build", TL: tls.id([]Tok{}), Err: msg, F: failKind(msg)})
 			return
 		}
 		decB := func(p string, b []byte) {
